@@ -338,26 +338,70 @@ def fixed_shapes():
     return sh
 
 
+def simple_cycles_only(shape):
+    """True iff every non-trivial strongly connected component of the class-level reference graph is one simple cycle
+    (every member has exactly one distinct successor inside the component).  On such graphs every reference cycle passes
+    through every member of its component, which is what apischema's recursion analysis needs to be exact whatever key it
+    starts from (see the report: with overlapping cycles the *sequential* result depends on the order of first uses, so
+    'what a sequential execution returns' is not one value and this check abstains)."""
+    g = graph(shape)
+    reach = {}
+    for a in g:
+        seen, stack = set(), list(g[a])
+        while stack:
+            x = stack.pop()
+            if x not in seen:
+                seen.add(x)
+                stack.extend(g.get(x, ()))
+        reach[a] = seen
+    for a in g:
+        if a not in reach[a]:
+            continue
+        comp = {b for b in g if b in reach[a] and a in reach[b]} | {a}
+        if len(g[a] & comp) != 1:
+            return False
+    return True
+
+
 def random_shape(rng, idx):
-    """random reference digraph over 2..5 dataclasses (+ optionally a leaf and a registered conversion)"""
+    """random reference graph over 2..5 dataclasses whose cycles do not overlap: the classes are split into ordered groups,
+    a group of >= 2 classes is a ring (with optional parallel edges), a singleton may reference itself, and further
+    references only go from earlier to later groups (+ optionally a leaf class, a registered conversion, a csv field)"""
     n = rng.randrange(2, 6)
     names = [f"C{i}" for i in range(n)]
-    classes = []
+    order = names[:]
+    rng.shuffle(order)
+    groups, i = [], 0
+    while i < n:
+        k = rng.choice([1, 2, 2, 3]) if n - i > 1 else 1
+        groups.append(order[i : i + k])
+        i += k
+    wraps = [O, L, D, lambda t: O(L(t)), lambda t: L(["union", I, t]), lambda t: ["tuple2", I, O(t)]]
     with_leaf = rng.random() < 0.5
     with_id = rng.random() < 0.4
-    for i, nm in enumerate(names):
-        fields = [("v", rng.choice([I, S, F, B]))]
-        for j, other in enumerate(names):
-            if rng.random() < (0.45 if j != i else 0.2):
-                wrap = rng.choice([O, L, D, lambda t: O(L(t)), lambda t: L(["union", I, t])])
-                fields.append((f"r{j}", wrap(R(other))))
+    fields = {nm: [("v", rng.choice([I, S, F, B]))] for nm in names}
+    for gi, grp in enumerate(groups):
+        if len(grp) >= 2:
+            for j, nm in enumerate(grp):
+                succ = grp[(j + 1) % len(grp)]
+                fields[nm].append((f"r{succ}", rng.choice(wraps)(R(succ))))
+                if rng.random() < 0.3:  # parallel edge to the same successor through another container
+                    fields[nm].append((f"p{succ}", rng.choice(wraps)(R(succ))))
+        elif rng.random() < 0.4:
+            fields[grp[0]].append(("self_", rng.choice(wraps)(R(grp[0]))))
+        for later in groups[gi + 1 :]:
+            for nm in grp:
+                for other in later:
+                    if rng.random() < 0.35:
+                        fields[nm].append((f"d{other}", rng.choice(wraps + [lambda t: t])(R(other))))
+    for nm in names:
         if with_leaf and rng.random() < 0.5:
-            fields.append(("leaf", R("Leaf")))
+            fields[nm].append(("leaf", R("Leaf")))
         if with_id and rng.random() < 0.5:
-            fields.append(("id", R("Id")))
+            fields[nm].append(("id", R("Id")))
         if rng.random() < 0.2:
-            fields.append(("tags", ["csv"]))
-        classes.append(dc(nm, *fields))
+            fields[nm].append(("tags", ["csv"]))
+    classes = [dc(nm, *fields[nm]) for nm in names]
     if with_leaf:
         classes.append(dc("Leaf", ("z", I)))
     if with_id:
